@@ -51,14 +51,29 @@ def rule_s(F):
         if adt["kind"] == "Struct":
             fields = [fl["name"] for fl in adt["variants"][0]["fields"]]
             used = set()
+            conditional = set()
+            anc = hu.control_ancestors(f.hir["body"])
             for x in hir_walk(f.hir["body"]):
                 if x.get("k") == "field":
                     inner = hir_strip(x["e"])
                     if inner.get("k") == "path" and inner["path"]["res"].get("name") == "self":
                         used.add(x["name"])
+            # the write itself must be unconditional (skip_serializing_if puts it under an `if`)
+            for x in hir_walk(f.hir["body"]):
+                if x.get("k") in ("call", "mcall") and any(n.endswith("::serialize_field") or n.endswith("::serialize_element")
+                                                              or n.endswith("::serialize_newtype_struct") for n in hir_callee(x)):
+                    names = set(y["name"] for y in hir_walk(x) if y.get("k") == "field" and hir_strip(y["e"]).get("k") == "path"
+                                and hir_strip(y["e"])["path"]["res"].get("name") == "self")
+                    if any(k in ("then", "else") or k.startswith("arm") for k, _i in anc.get(id(x), ())):
+                        conditional |= names
             for fl in fields:
                 key = "C11/S/%s.%s/serialized" % (tname, fl)
-                if fl in used:
+                if fl in conditional:
+                    res.append(bad("C11.S", key, "%s:%s" % (adt["file"], adt["line"]),
+                                   "field %s.%s is written by the derived Serialize impl only under a condition (serde skip_serializing_if): "
+                                   "formats that store struct fields by position (bincode) then read the following bytes as this field, a "
+                                   "round trip changes or loses data" % (tname, fl)))
+                elif fl in used:
                     res.append(ok("C11.S", key, "%s:%s" % (adt["file"], adt["line"]), "written by the derived Serialize impl"))
                 elif (ty, fl) in ALLOWED_SKIPS:
                     res.append(ok("C11.S", key, "%s:%s" % (adt["file"], adt["line"]), "skipped on purpose: " + ALLOWED_SKIPS[(ty, fl)], skipped=True))
